@@ -936,6 +936,15 @@ func (e *Enc) evalCall(n *SCall, ctx *SpecCtx) (SV, error) {
 		}
 		c2 := ctx.withState(ls)
 		return e.evalSpec(n.Args[0], c2)
+	case "bytestr":
+		// bytestr(b): the string with the bytes of slice b (string(b) / peer.ID(b))
+		v, err := arg(0)
+		if err != nil {
+			return SV{}, err
+		}
+		c := e.sliceComp(types.Typ[types.Uint8])
+		e.ufun("str_of_bytes", []string{"(Array Int Int)", "Int", "Int"}, "Str")
+		return SV{T: fmt.Sprintf("(str_of_bytes (select %s (s_arr %s)) (s_off %s) (s_len %s))", e.get(ctx.cur, c), v.T, v.T, v.T), Sort: "Str"}, nil
 	case "be64":
 		v, err := arg(0)
 		if err != nil {
